@@ -366,6 +366,16 @@ fn put_of_unreadable_held_key(ttl_variant: bool, soft_deleted: bool) {
     let ack = hold(if !ttl_variant { c.put_with_weight(101, v, 5) } else { c.put_with_weight_and_ttl(101, v, 5, Duration::from_secs(30)) });
     let queued = cek::vk_queue_len(&c.command_executor);
     assert!(queued <= 1, "C11: at most one command per call");
+    if sup::cfg::KF_F3 {
+        // While finding F3 stands (the worker charges a second id when it applies a Put for a key that is still held -
+        // demonstrated by `c05_f3_put_applied_while_key_is_held`), the caller's side is what protects the accounting:
+        // a put of a key that is still physically held must not reach the queue.  Once F3 is fixed this lemma is dropped
+        // and the end-to-end part below takes over.
+        assert!(queued == 0, "C05: a put of a key that is still physically held (expired-unswept / soft-deleted) is never queued - the worker would charge a second id for the same store entry (finding F3) and the first id's weight would stay charged");
+        kani::cover!(true, "end reached");
+        core::mem::forget(w);
+        return;
+    }
     if queued == 1 {
         cek::vk_run_worker(w.worker);
         assert!(status_of(&ack) != Poll::Pending, "C12: the worker acknowledged the put");
@@ -377,6 +387,90 @@ fn put_of_unreadable_held_key(ttl_variant: bool, soft_deleted: bool) {
     assert!(c.total_weight_used() == expected_total, "C05: at quiescence the total equals the sum of the weights of exactly the held keys (no weight stays charged for a replaced entry)");
     assert!(cwk::vk_len(cw) == if held.is_some() { 1 } else { 0 }, "C05: no id stays charged without a held key");
     kani::cover!(queued == 1, "opt: the put of an unreadable but still held key was queued");
+    kani::cover!(true, "end reached");
+    vs::edge_covers();
+    core::mem::forget(w);
+}
+
+/// C05 / F3 demonstrated: the worker applies Put(k, fresh id) while k is still held under another id (the state two puts
+/// of one key reach when the second is issued before the first was applied).  One-key world, concrete weights, no
+/// pressure.  On the unchanged tree the total then exceeds the weights of the held keys (known finding F3); with F3
+/// fixed the same harness asserts the accounting.
+#[kani::proof]
+#[kani::unwind(6)]
+fn c05_f3_put_applied_while_key_is_held() {
+    let mut keys = shaped_keys(Shape { present: [true, false, false], ttl: [false, false, false] });
+    keys[0].weight = 10;
+    keys[0].e.soft_deleted = false;
+    let mut __qs = cek::vk_slots();
+    let w = vk_world(2, plain_lfu());
+    cek::vk_attach(&w.cache.command_executor, &mut __qs);
+    install(&w, 0, &keys[0]);
+    set_limits(&w, 1000, 10);
+    any_now();
+    let c = &w.cache;
+    let d = crate::cache::key_description::KeyDescription::new(101u64, FIRST_FRESH_ID, cfk::vk_hash(&101), 5);
+    let ack = hold(c.command_executor.send(crate::cache::command::CommandType::Put(d, 77)));
+    cek::vk_run_worker(w.worker);
+    assert!(status_of(&ack) == Poll::Ready(CommandStatus::Accepted), "C06: fits: accepted");
+    let cw = apk::vk_cw(&c.admission_policy);
+    let held = sk::vk_peek(&c.store, &101).unwrap();
+    let held_weight = cwk::vk_entry(cw, held.key_id()).map(|x| x.2).unwrap_or(-1);
+    let consistent = c.total_weight_used() == held_weight && cwk::vk_len(cw) == 1;
+    if sup::cfg::KF_F3 {
+        kani::cover!(!consistent, "KF F3: a Put applied while the key is already held (two puts of one key before the first is applied): both ids stay charged (total 15, held weight 5), the first id's weight is never released");
+    } else {
+        assert!(consistent, "C05: at quiescence the total equals the sum of the weights of exactly the held keys");
+    }
+    kani::cover!(true, "end reached");
+    vs::edge_covers();
+    core::mem::forget(w);
+}
+
+/// C18 lock-order witnesses on a small CONCRETE world (the order in which locks are taken along a path does not depend
+/// on the data, so these two paths are driven with concrete values and cost seconds): (a) the worker admits a put under
+/// pressure and evicts a TTL key through its REAL delete hook; (b) the REAL sweeper evicts an expired key through the REAL
+/// evict hook.  Their lock-order edges join the union graph of C18 (a worker path that takes the expiry-index lock while it
+/// holds the total-weight lock closes a cycle with the sweeper's path).  Also checked: the eviction / the sweep leave the
+/// accounting consistent.
+#[kani::proof]
+#[kani::unwind(6)]
+fn c18_worker_evicts_ttl_key_through_real_hook() {
+    let keys = [AKey { e: AEntry { present: true, value: 7, id: 1, expiry: Some((5000, 0)), soft_deleted: false }, weight: 10, shard: 0 },
+                AKey { e: AEntry { present: false, value: 0, id: 2, expiry: None, soft_deleted: false }, weight: 1, shard: 0 },
+                AKey { e: AEntry { present: false, value: 0, id: 3, expiry: None, soft_deleted: false }, weight: 1, shard: 0 }];
+    let mut __qs = cek::vk_slots();
+    let w = vk_world(2, plain_lfu());
+    cek::vk_attach(&w.cache.command_executor, &mut __qs);
+    install(&w, 0, &keys[0]);
+    set_limits(&w, 12, 10);
+    sup::set_now(4000, 0);
+    let c = &w.cache;
+    let ack = hold(c.put_with_weight(104, 9, 5));
+    cek::vk_run_worker(w.worker);
+    assert!(status_of(&ack) == Poll::Ready(CommandStatus::Accepted), "C06: the colder resident is evicted, the put is accepted");
+    assert!(sk::vk_peek(&c.store, &101).is_none() && cwk::vk_entry(apk::vk_cw(&c.admission_policy), 1).is_none() && c.total_weight_used() == 5, "C05: the evicted key is released completely");
+    assert!(c.get(&104) == Some(9), "C03: the accepted key is readable");
+    kani::cover!(true, "end reached");
+    vs::edge_covers();
+    core::mem::forget(w);
+}
+#[kani::proof]
+#[kani::unwind(6)]
+fn c18_sweeper_evicts_expired_key_through_real_hook() {
+    let keys = [AKey { e: AEntry { present: true, value: 7, id: 1, expiry: Some((5000, 0)), soft_deleted: false }, weight: 10, shard: 0 },
+                AKey { e: AEntry { present: false, value: 0, id: 2, expiry: None, soft_deleted: false }, weight: 1, shard: 0 },
+                AKey { e: AEntry { present: false, value: 0, id: 3, expiry: None, soft_deleted: false }, weight: 1, shard: 0 }];
+    let mut __qs = cek::vk_slots();
+    let w = vk_world(2, plain_lfu());
+    cek::vk_attach(&w.cache.command_executor, &mut __qs);
+    install(&w, 0, &keys[0]);
+    set_limits(&w, 12, 10);
+    sup::set_now(5002, 0);                       // shard 0 is due, the key expired two seconds ago
+    let c = &w.cache;
+    exk::vk_run_sweeper(w.sweeper, 1);
+    assert!(sk::vk_peek(&c.store, &101).is_none() && cwk::vk_entry(apk::vk_cw(&c.admission_policy), 1).is_none() && c.total_weight_used() == 0 && exk::vk_find(&c.ttl_ticker, 1).is_none(), "C10: the expired key is removed from store, weights and index, its weight released");
+    assert!(w.stats.keys_deleted() == 1 && w.stats.weight_removed() == 10, "C16: the swept key and its weight are counted");
     kani::cover!(true, "end reached");
     vs::edge_covers();
     core::mem::forget(w);
